@@ -97,7 +97,7 @@ def gen_case(run_seed: int, index: int, tier: str) -> dict:
                 if not kinds:
                     raise C.Inadmissible("no decoder of this kind within the size bounds")
                 comp["decoder"] = rng.choice(kinds)
-                comp["dec_opts"] = {}
+                comp["dec_opts"] = {"precompute": False} if comp["decoder"] == "ml" and rng.random() < 0.25 else {}
                 # the documented optional second output: error pattern (hard decoders, Wagner) / soft codeword (BP, min-sum)
                 if comp["decoder"] in ("syndrome", "ml", "bm", "wagner") and rng.random() < 0.3:
                     comp["second_output"] = "return_errors"
